@@ -5,7 +5,14 @@ import (
 	"fmt"
 	"os"
 	"strconv"
+
+	"github.com/go-logr/stdr"
 )
+
+func init() {
+	// the server package raises the global stdr verbosity when it is loaded
+	stdr.SetVerbosity(0)
+}
 
 var props = map[string]func(r *Run){}
 
